@@ -11,8 +11,8 @@ from ..observe import run_async, run_sync
 
 ID = "C05"
 LEVEL = "exploration"
-BUDGET = {"quick": 1200, "thorough": 40000}
-SHARDS = {"quick": 8, "thorough": 16}
+BUDGET = {"quick": 3600, "thorough": 40000}
+SHARDS = {"quick": 16, "thorough": 16}
 RULE = (
     "Hypothesis-generated acyclic program P (3-8 nodes) x an interval of its topological order (convex by construction) wrapped "
     "as a nested graph node, recursively to depth 1-3; the inner graph is built over a permutation of the name pool (inner names "
